@@ -86,7 +86,25 @@ Definition more_obligations : list (string * (schema * ty)) := [
   ("tlb.PrecompiledContractsConfig", (s_PrecompiledContractsConfig, d_tlb_PrecompiledContractsConfig));
   ("tlb.SuspendedAddressList", (s_SuspendedAddressList, d_tlb_SuspendedAddressList));
   ("tlb.AccountDispatchQueue", (s_AccountDispatchQueue, d_tlb_AccountDispatchQueue));
-  ("tlb.BlockInfoPart", (s_BlockInfoPart, d_tlb_BlockInfoPart))].
+  ("tlb.BlockInfoPart", (s_BlockInfoPart, d_tlb_BlockInfoPart));
+  (* added after round 7: dictionary-valued and bridge parameters, proposal status, implemented prefixes *)
+  ("tlb.ConfigParam12", (s_ConfigParam12, d_tlb_ConfigParam12));
+  ("tlb.ConfigParam31", (s_ConfigParam31, d_tlb_ConfigParam31));
+  ("tlb.ConfigParam44", (s_ConfigParam44, d_tlb_ConfigParam44));
+  ("tlb.ConfigParam45", (s_ConfigParam45, d_tlb_ConfigParam45));
+  ("tlb.ConfigParam71", (s_ConfigParamOracleBridge, d_tlb_ConfigParam71));
+  ("tlb.ConfigParam72", (s_ConfigParamOracleBridge, d_tlb_ConfigParam72));
+  ("tlb.ConfigParam73", (s_ConfigParamOracleBridge, d_tlb_ConfigParam73));
+  ("tlb.JettonBridgeParams", (s_JettonBridgeParams, d_tlb_JettonBridgeParams));
+  ("tlb.ConfigParam79", (s_ConfigParamJettonBridge, d_tlb_ConfigParam79));
+  ("tlb.ConfigParam81", (s_ConfigParamJettonBridge, d_tlb_ConfigParam81));
+  ("tlb.ConfigParam82", (s_ConfigParamJettonBridge, d_tlb_ConfigParam82));
+  ("tlb.ConfigProposalStatus", (s_ConfigProposalStatus, d_tlb_ConfigProposalStatus));
+  ("tlb.CryptoSignatureSimpleData", (s_CryptoSignatureSimpleData, d_tlb_CryptoSignatureSimpleData));
+  ("tlb.ValidatorSetsCommon", (s_ValidatorSetsCommon, d_tlb_ValidatorSetsCommon));
+  ("tlb.VmCellSlice", (s_VmCellSlice, d_tlb_VmCellSlice));
+  ("tlb.WorkchainDescr", (s_WorkchainDescr_prefix, d_tlb_WorkchainDescr));
+  ("tlb.ShardDesc", (s_ShardDescr_prefix, d_tlb_ShardDesc))].
 
 Theorem C04_gen_more_types_refine_block_tlb :
   forallb (fun p => ok (fst (snd p)) (snd (snd p))) more_obligations = true.
@@ -122,7 +140,7 @@ Definition without_obligation : list string :=
   map fst (filter (fun p => in_tlb_package (fst p) && is_compound (snd p)
                             && negb (existsb (String.eqb (fst p)) with_obligation)) tlb_types).
 
-Theorem C04_gen_unpinned_types_bounded : Nat.leb (List.length without_obligation) 33 = true.
+Theorem C04_gen_unpinned_types_bounded : Nat.leb (List.length without_obligation) 16 = true.
 Proof. vm_compute. reflexivity. Qed.
 
 Eval vm_compute in ("tlb struct/union types with a descriptor but no block.tlb obligation yet", without_obligation).
